@@ -48,6 +48,7 @@ type world struct {
 	// declaration of every function of the module (including generated files; generated
 	// files are only excluded as *reporting sites*, not as call targets)
 	funcs map[*types.Func]*funcInfo
+	cg    *callGraph // lazily built (extract.go)
 }
 
 func (w *world) inModule(path string) bool {
@@ -284,6 +285,7 @@ type Facts struct {
 	SeqWriters           [][2]string `json:"seqWriters"`
 	SeqCallers           [][2]string `json:"seqCallers"`
 	SeqReach             [][2]string `json:"seqReach"`
+	NondetReach          [][2]string `json:"nondetReach"`
 	KeeperStoreFields    [][3]string `json:"keeperStoreFields"`
 	StoreWriters         [][3]string `json:"storeWriters"`
 	StoreEscapes         [][3]string `json:"storeEscapes"`
@@ -321,6 +323,7 @@ func main() {
 	f.MapRanges = w.mapRanges(w.corePkgs())
 	f.NondetUses = w.nondetUses(w.corePkgs())
 	f.NondetUsesPkg = w.nondetUses(w.pkgPkgs())
+	f.NondetReach = w.nondetReach(f.NondetUses)
 	ks := w.keeperStores()
 	f.KeeperStoreFields = ks.fieldTable()
 	f.StoreWriters, f.StoreEscapes = w.storeWriters(ks)
